@@ -535,6 +535,130 @@ fn run_layer2(run: &Run) {
 }
 
 
+/// layer 2b: one version reaches the quorum while other versions have already been returned (the driver's quorum-time
+/// branch, not the end-of-query one). Per mergeable kind: every majority version m of the pool (the transaction pool
+/// extended by a body that does not decode and by a scratchpad record under the same key), every 1-2 other versions,
+/// every arrival sequence that ends with the third answer for m. The versions meet in a HashMap inside the driver; a
+/// hook reads its iteration order just before the completing answer, and each case is repeated on fresh drivers until
+/// every iteration order of its versions has been executed — so that dimension is enumerated, not sampled.
+fn run_layer2b(run: &Run) {
+    let mut families = families();
+    {
+        let (_, key, pool) = families.iter_mut().find(|f| f.0 == "transaction").expect("tx family");
+        pool.push(PoolItem { name: "undecodable", record: rec::record(key.clone(), bytes::Bytes::from_static(&[0x91, 0x06, 0xc1, 0xc1])) });
+        let pad = rec::pad_record(&rec::pad(5, 1, b"a pad under the transactions' key", 5));
+        pool.push(PoolItem { name: "a scratchpad record under this key", record: Record { key: key.clone(), ..pad } });
+    }
+    use std::sync::atomic::{AtomicU64, AtomicUsize, Ordering as AO};
+    let (total, cases, capped) = (AtomicU64::new(0), AtomicU64::new(0), AtomicU64::new(0));
+    let max_minor = run.pick(2, 2);
+    let jobs: Vec<(usize, usize)> = families.iter().enumerate().flat_map(|(fi, f)| (0..f.2.len()).map(move |m| (fi, m))).collect();
+    let next = AtomicUsize::new(0);
+    std::thread::scope(|sc| {
+        for _ in 0..mc_core::workers() {
+            sc.spawn(|| loop {
+                let j = next.fetch_add(1, AO::Relaxed);
+                if j >= jobs.len() || mc_core::budget_spent() {
+                    break;
+                }
+                let (fi, m) = jobs[j];
+                let (fname, key, pool) = &families[fi];
+                {
+                    {
+            let others: Vec<usize> = (0..pool.len()).filter(|i| *i != m).collect();
+            for mask in enumerate::subsets(others.len(), 1, max_minor) {
+                let minors: Vec<usize> = (0..others.len()).filter(|i| mask & (1 << i) != 0).map(|i| others[i]).collect();
+                // arrival sequences: every distinct order of minors + two answers for m, then the completing third
+                let mut body: Vec<usize> = minors.clone();
+                body.extend([m, m]);
+                let mut seqs: BTreeSet<Vec<usize>> = BTreeSet::new();
+                if run.quick() {
+                    enumerate::permutations(minors.len(), |perm| {
+                        let mut q: Vec<usize> = perm.iter().map(|i| minors[*i]).collect();
+                        q.extend([m, m]);
+                        seqs.insert(q);
+                    });
+                } else {
+                    enumerate::permutations(body.len(), |perm| {
+                        seqs.insert(perm.iter().map(|i| body[*i]).collect());
+                    });
+                }
+                let n_versions = minors.len() + 1;
+                let n_orders: usize = (1..=n_versions).product();
+                for seq in seqs {
+                    cases.fetch_add(1, AO::Relaxed);
+                    let mut seen_orders: BTreeSet<Vec<usize>> = BTreeSet::new();
+                    let mut tries = 0;
+                    while seen_orders.len() < n_orders && tries < 400 {
+                        tries += 1;
+                        let mut rig = DriverRig::new_client(1);
+                        let net = rig.network.clone();
+                        let k = key.clone();
+                        let slot: Arc<std::sync::Mutex<Option<Result<Record, String>>>> = Arc::new(std::sync::Mutex::new(None));
+                        let s2 = slot.clone();
+                        rig.exec.add("get", async move {
+                            let cfg = GetRecordCfg { get_quorum: Quorum::Majority, retry_strategy: None, target_record: None, expected_holders: Default::default(), is_register: false };
+                            let r = net.get_record_from_network(k, &cfg).await.map_err(|e| format!("{e:?}"));
+                            *s2.lock().unwrap() = Some(r);
+                        });
+                        rig.settle();
+                        while let Some(c) = rig.outbox.pop_front() {
+                            let _ = rig.handle_network(c);
+                        }
+                        let Some(id) = rig.driver.verif_pending_get_record().first().map(|x| x.0) else {
+                            run.machinery_error("layer 2b: the read did not register a query");
+                        };
+                        let mut deliver = |rig: &mut DriverRig, n: usize, vi: usize| {
+                            let pr = PeerRecord { peer: Some(peer(n)), record: pool[vi].record.clone() };
+                            let ev = kad::Event::OutboundQueryProgressed { id, result: QueryResult::GetRecord(Ok(kad::GetRecordOk::FoundRecord(pr))), stats: QueryStats::empty(), step: ProgressStep { count: NonZeroUsize::new(n + 1).unwrap(), last: false } };
+                            let d = &mut rig.driver;
+                            let _ = rig.exec.capture(None, "driver", || d.verif_handle_kad_event(ev));
+                        };
+                        for (n, vi) in seq.iter().enumerate() {
+                            deliver(&mut rig, n, *vi);
+                        }
+                        // the iteration order the driver's merge will see
+                        let hashes = rig.driver.verif_get_record_version_order(&id);
+                        let order: Vec<usize> = hashes.iter().filter_map(|h| (0..pool.len()).find(|i| XorName::from_content(&pool[*i].record.value) == *h)).collect();
+                        if order.len() != n_versions {
+                            run.machinery_error(&format!("layer 2b: the driver holds {} versions before the completing answer, {n_versions} were delivered", order.len()));
+                        }
+                        if !seen_orders.insert(order.clone()) {
+                            continue; // this iteration order was executed already
+                        }
+                        deliver(&mut rig, seq.len(), m);
+                        rig.settle();
+                        let ev = kad::Event::OutboundQueryProgressed { id, result: QueryResult::GetRecord(Ok(kad::GetRecordOk::FinishedWithNoAdditionalRecord { cache_candidates: Default::default() })), stats: QueryStats::empty(), step: ProgressStep { count: NonZeroUsize::new(seq.len() + 2).unwrap(), last: true } };
+                        let d = &mut rig.driver;
+                        let _ = rig.exec.capture(None, "driver", || d.verif_handle_kad_event(ev));
+                        rig.settle();
+                        total.fetch_add(1, AO::Relaxed);
+                        let got = slot.lock().unwrap().take();
+                        let names: Vec<&str> = seq.iter().map(|i| pool[*i].name).collect();
+                        let onames: Vec<&str> = order.iter().map(|i| pool[*i].name).collect();
+                        let desc = json!({"layer": "2b", "kind": fname, "answers_in_arrival_order": names, "then_the_third_answer_for": pool[m].name, "driver_map_iteration_order": onames});
+                        run.case(format!("L2b:{fname}:{seq:?}:{m}:{order:?}").as_bytes(), true);
+                        let mut received = seq.clone();
+                        received.push(m);
+                        judge_layer2(run, fname, &received, pool, got, desc);
+                    }
+                    if seen_orders.len() < n_orders {
+                        capped.fetch_add(1, AO::Relaxed);
+                    }
+                }
+            }
+                    }
+                }
+            });
+        }
+    });
+    let (total, cases, capped) = (total.into_inner(), cases.into_inner(), capped.into_inner());
+    run.extra("layer2b", json!({"arrival_sequences": cases, "executions": total, "sequences_for_which_not_every_map_order_was_reached_in_400_tries": capped}));
+    if capped > 0 {
+        run.cap_hit(&format!("layer 2b: {capped} arrival sequences did not reach every iteration order of the driver's version map within 400 fresh drivers"));
+    }
+}
+
 /// layer 3: the same pools handed to the real get_record_from_network as a split result whose map iterates in
 /// every order (the harness answers the GetNetworkRecord command itself; see client_rig::result_map_in_order).
 fn run_layer3(run: &Run) {
@@ -905,11 +1029,15 @@ fn judge_layer2(run: &Run, fname: &str, order: &[usize], pool: &[PoolItem], got:
                 match i {
                     0 => drop(want.insert(1)),
                     1 => drop(want.insert(2)),
-                    _ => {
+                    2 => {
                         want.insert(1);
                         want.insert(3);
                     }
+                    _ => {} // not a transaction record: contributes nothing
                 }
+            }
+            if want.is_empty() {
+                return; // no transaction version was among the answers: the union clause says nothing
             }
             match got {
                 Ok(r) => match try_deserialize_record::<Vec<Transaction>>(&r) {
@@ -921,6 +1049,8 @@ fn judge_layer2(run: &Run, fname: &str, order: &[usize], pool: &[PoolItem], got:
                     }
                     Err(_) => run.violation("merge-transactions-union", "undecodable", format!("returned bytes do not decode ({desc})"), json!({"case": desc})),
                 },
+                // (with a version among them that is no transaction record, the full set of versions is an answer the statement allows)
+                Err(e) if order.iter().any(|i| *i > 2) && e.contains("SplitRecord") => {}
                 Err(e) => run.violation("merge-transactions-union", "error", format!("differing transaction versions were received but the read failed with {e} ({desc})"), json!({"case": desc})),
             }
         }
@@ -991,6 +1121,7 @@ pub fn main(tier: Option<&str>) {
         );
     }
     run_layer2(&run);
+    run_layer2b(&run);
     run_layer3(&run);
     run_layer4(&run);
     run.finish();
